@@ -160,7 +160,7 @@ package crl
 //@   ensures [unknown=>names-failing-url] (result.Result == result.ResultUnknown && opts.Fetcher != nil) ==> exists k :: 0 <= k && k < len(cert.CRLDistributionPoints) && result.ServerResults[0].Server == cert.CRLDistributionPoints[k]
 //@   ensures [nonrevokable=>unsupported] result.Result == result.ResultNonRevokable ==> !Supported$(cert)
 // the evidence behind every OK server result, tied to the iteration that produced it
-//@   assert before call append#0: [evidence] opts.Fetcher != nil && lastarg(Fetcher.Fetch, 2) == crlURL && lastret(Fetcher.Fetch, 0) == bundle && lastret(Fetcher.Fetch, 1) == nil && BundleValid(bundle, issuer) && ((x509util.FindExtensionByOID$(cert.Extensions, oidFreshestCRL) != nil) ==> bundle.DeltaCRL != nil) && err == nil && crlResult != nil && crlResult.Result == result.ResultOK && crlResult.Server == crlURL
+//@   assert before call append#0: [evidence] opts.Fetcher != nil && lastarg(Fetcher.Fetch, 2) == crlURL && lastret(Fetcher.Fetch, 1) == nil && BundleValid(lastret(Fetcher.Fetch, 0), issuer) && ((x509util.FindExtensionByOID$(cert.Extensions, oidFreshestCRL) != nil) ==> lastret(Fetcher.Fetch, 0).DeltaCRL != nil) && crlResult != nil && crlResult.Result == result.ResultOK && crlResult.Server == crlURL
 //@   loop 0
 //@     invariant cert != nil && opts.Fetcher != nil && lastErr == nil
 //@     invariant len(serverResults) == it && ncalls(Fetcher.Fetch) == it
